@@ -820,7 +820,7 @@ macro_rules! c08_scalar {
 				}
 				2 => {
 					want.push_all(SPELLINGS[k]);
-					Value::Number(unsafe { NumberBuf::new_unchecked(smallvec::SmallVec::from_slice(SPELLINGS[k])) })
+					Value::Number(unsafe { NumberBuf::new_unchecked(crate::util::number_bytes(SPELLINGS[k])) })
 				}
 				_ => {
 					ref_string_literal(&[c], &mut want);
